@@ -168,6 +168,7 @@ class DataChunk(Chunk):
     _abandoned: bool
     _book_size: int
     _expiry: Optional[float]
+    _in_flight: bool
     _max_retransmits: Optional[int]
     _misses: int
     _retransmit: bool
@@ -809,10 +810,14 @@ class RTCSctpTransport(AsyncIOEventEmitter):
         self._set_state(self.State.COOKIE_WAIT)
 
     def _flight_size_decrease(self, chunk: DataChunk) -> None:
-        self._flight_size = max(0, self._flight_size - chunk._book_size)
+        if chunk._in_flight:
+            chunk._in_flight = False
+            self._flight_size = max(0, self._flight_size - chunk._book_size)
 
     def _flight_size_increase(self, chunk: DataChunk) -> None:
-        self._flight_size += chunk._book_size
+        if not chunk._in_flight:
+            chunk._in_flight = True
+            self._flight_size += chunk._book_size
 
     def _get_extensions(self, params: list[tuple[int, bytes]]) -> None:
         """
@@ -901,12 +906,14 @@ class RTCSctpTransport(AsyncIOEventEmitter):
             ochunk = self._sent_queue[pos]
             ochunk._abandoned = True
             ochunk._retransmit = False
+            self._flight_size_decrease(ochunk)
             if ochunk.flags & SCTP_DATA_FIRST_FRAG:
                 break
         for pos in range(chunk_pos, len(self._sent_queue)):
             ochunk = self._sent_queue[pos]
             ochunk._abandoned = True
             ochunk._retransmit = False
+            self._flight_size_decrease(ochunk)
             if ochunk.flags & SCTP_DATA_LAST_FRAG:
                 break
 
@@ -1176,7 +1183,7 @@ class RTCSctpTransport(AsyncIOEventEmitter):
             done += 1
             if not schunk._acked:
                 done_bytes += schunk._book_size
-                self._flight_size_decrease(schunk)
+            self._flight_size_decrease(schunk)
 
             # update RTO estimate
             if done == 1 and schunk._sent_count == 1:
@@ -1342,6 +1349,7 @@ class RTCSctpTransport(AsyncIOEventEmitter):
             chunk._acked = False
             chunk._book_size = len(chunk.user_data)
             chunk._expiry = expiry
+            chunk._in_flight = False
             chunk._max_retransmits = max_retransmits
             chunk._misses = 0
             chunk._retransmit = False
@@ -1503,6 +1511,9 @@ class RTCSctpTransport(AsyncIOEventEmitter):
         for chunk in self._sent_queue:
             if not self._maybe_abandon(chunk):
                 chunk._retransmit = True
+            # nothing is in flight any more, whatever was selectively acknowledged
+            chunk._acked = False
+            chunk._in_flight = False
         self._update_advanced_peer_ack_point()
 
         # adjust congestion window
